@@ -175,6 +175,9 @@ def _selectors(idx, rhs, assigned, depth=0):
     if not found:
         if any(x.get("k") in ("Ctor", "Struct") and (x.get("adt") or "").startswith(AST) for x in walk(rhs)):
             return {"generated"}
+        top = strip_transparent(rhs)
+        if top.get("k") == "Call" and not top.get("args"):
+            return {"generated"}
     return out or {"whole"}
 
 
